@@ -946,7 +946,12 @@ func partD(run *ev.Run) {
 	for i := 0; i < 8; i++ {
 		sc, herr, rp, realKey, rawKey := session(rawMode{Name: "honest"})
 		if sc == nil {
-			ev.Fatal("the byte-level peer could not complete an honest handshake with the real code (%v): the harness' protocol re-implementation is wrong", herr)
+			// the byte-level peer is an independent implementation of the documented handshake (X25519 exchange,
+			// challenge = SHA-256(lower ephemeral key || higher ephemeral key), ed25519 signature over it, secretbox
+			// frames): it completes honest handshakes with the unchanged code, so a refusal means the code no longer
+			// speaks that protocol (e.g. signs a challenge that does not bind both ephemeral keys)
+			run.Violation("handshake-differs-from-independent-implementation", fmt.Sprintf("the real end refuses an honest handshake of the independent byte-level peer: %v", herr), map[string]interface{}{"session": i})
+			run.Finish()
 		}
 		if rp.isLo {
 			loSeen++
